@@ -5,10 +5,18 @@ V = os.path.dirname(os.path.dirname(os.path.abspath(__file__)))
 sys.path.insert(0, os.path.join(V, "tools"))
 import props
 
+NOTE_STD = "Trusted: Coq 8.16.1 kernel; no axioms (Print Assumptions recorded in evidence); extraction with ExtrOcamlBasic; the Go harness, OCaml driver and Python comparer/monitors; SDK behaviour (bank, params, stores, math) modelled not verified — see DESIGN §8."
+TECH_STD = "Coq proof (invariant by induction over all operations) + model/implementation correspondence on real keepers"
+
+# pid -> (text, design_ref, category, technique, level_note)
 TEXT = {
- "C01": ("Machine-checked: the money invariant (escrow account = sum of deposit records per denomination; balances add up to supply; plan providers are not module accounts) is proved inductive over every operation of the model and lifted to all histories of any length; supply is proved untouched by every non-swap operation. Tie: every run executes generated histories on the real keepers and on the extracted model and diffs balances, supply and deposit records after every operation; an implementation-side monitor recomputes both sides of the escrow equation.", "DESIGN §6 C01"),
- "C14": ("Machine-checked: once-per-hash rejection, exact effect of an accepted swap (enabled, approver, fresh 32-byte hash, receiver credit amount/100, supply growth), permanence of records, and over any history supply change = sum of recorded swaps. Tie: correspondence on swap records, supply and balances; monitor re-derives each clause from the implementation's observations.", "DESIGN §6 C14"),
- "C16": ("Machine-checked: AmountForBytes = ceiling of p*b/10^9 (least such integer, zero at zero, monotone, sub-additive within one unit), GetProportionOfCoin = half-even rounded product within [0, coin], CeilTo = least multiple, for all inputs in the stated ranges, over a model of cosmossdk.io/math with its 256/315-bit checks. Tie: the real functions are evaluated on 20k (quick) / 400k (thorough) generated cases including the overflow frontier and compared with the extracted model; an independent rational oracle checks the implementation's outputs.", "DESIGN §6 C16"),
+ "C01": ("Machine-checked: the money invariant (escrow account = sum of deposit records per denomination; balances add up to supply; plan providers are not module accounts) is proved inductive over every operation of the model and lifted to all histories of any length; supply is proved untouched by every non-swap operation. Tie: every run executes generated histories on the real keepers and on the extracted model and diffs balances, supply and deposit records after every operation; an implementation-side monitor recomputes both sides of the escrow equation.", "DESIGN §6 C01", "proof", TECH_STD, NOTE_STD),
+ "C10": ("Translation validation: the same generated histories are executed by the real keepers in several fresh processes (different GOMAXPROCS, GC settings, scheduler noise, fresh map seeds) and the SHA-256 of ALL stored key/value pairs plus the ordered event list must agree byte for byte after every operation; the same histories are also compared, on every projected observable, with the Coq model, which is proved to be a function of the history with canonical (set-determined, chronological) ordered iteration; a typed source scan lists map ranges, clock reads, randomness, goroutines, floats in consensus code. Partial: runtime nondeterminism cannot be exhibited by a Gallina function (DESIGN §10).", "DESIGN §6 C10, §10", "translation_validation", "repeated-process digest comparison of the real keepers + correspondence with a Coq model proved deterministic and order-canonical + typed source scan", "Trusted: the Go harness (digest of all mounted stores, event serialisation), the process perturbation knobs (a rarely taken scheduling path may not be hit), the source scan's whitelist (each entry justified in tools/ext_c10.py), Coq 8.16.1 kernel for the model-side theorems (no axioms)."),
+ "C13": ("Machine-checked: a Coq model of cosmos-sdk v0.47.10 query.Paginate / FilteredPaginate (uint64 wrap-around, default limit, key/offset modes, reverse) pages every key-sorted store completely — following next_key or stepping the offset visits exactly the matching records once, in key order, total = their number — for every limit with |store|+limit+1 < 2^64 and every callback whose hit does not depend on accumulate; all_list_queries_complete quantifies over the table of the 20 list handlers regenerated from /repo on every run (a re-introduced accumulate defect makes the theorem fail). Tie: every list query of the real query servers is paged on generated states and compared response by response with the extracted model; a monitor checks concatenation = listing on the implementation alone.", "DESIGN §6 C13", "proof", "Coq proof over a paginator model + translator (query handler shapes regenerated from source) + correspondence of real query servers with the extracted model", NOTE_STD + " One known finding (limit = 2^64-1 wraps inside the SDK paginator) is listed in KNOWN_FINDINGS.txt and proved as C13_refuted_at_max_limit."),
+ "C14": ("Machine-checked: once-per-hash rejection, exact effect of an accepted swap (enabled, approver, fresh 32-byte hash, receiver credit amount/100, supply growth), permanence of records, and over any history supply change = sum of recorded swaps. Tie: correspondence on swap records, supply and balances; monitor re-derives each clause from the implementation's observations.", "DESIGN §6 C14", "proof", TECH_STD, NOTE_STD),
+ "C15": ("Machine-checked: the begin-of-block step of the inflation module removes exactly the scheduled entries with timestamp <= block time, sets the minting parameters to those of the LATEST due entry and the inflation rate to its minimum, changes nothing when no entry is due; no other operation touches schedule or minting parameters; over any history the schedule only shrinks (applied at most once); the step cannot panic on a validated schedule. Proved for all schedules and times by induction over the time-sorted iteration. Tie: correspondence on SDK mint params, minter and remaining schedule after every operation; implementation-side latest-due-entry monitor.", "DESIGN §6 C15", "proof", TECH_STD, NOTE_STD),
+ "C16": ("Machine-checked: AmountForBytes = ceiling of p*b/10^9 (least such integer, zero at zero, monotone, sub-additive within one unit), GetProportionOfCoin = half-even rounded product within [0, coin], CeilTo = least multiple, for all inputs in the stated ranges, over a model of cosmossdk.io/math with its 256/315-bit checks. Tie: the real functions are evaluated on 20k (quick) / 400k (thorough) generated cases including the overflow frontier and compared with the extracted model; an independent rational oracle checks the implementation's outputs.", "DESIGN §6 C16", "proof", "Coq proof (algebraic laws over a model of cosmossdk.io/math) + pure-function correspondence with the real functions", NOTE_STD),
+ "C19": ("Partial. Machine-checked for the hand-written codec code: Status JSON print/parse round trip over the tables regenerated from types/status.go and status.pb.go on every run (for every declared value, for any init() iteration order, numbers, generated names; the historical defect is a refuted witness), hex and EthereumHash binary/JSON round trips for all 32-byte values. The gogoproto-generated binary/JSON codecs are not modelled: they are covered by an implementation-side round-trip monitor over generated values of every registered sentinel.* type (binary, JSON, interface, tx file flow, genesis export/validate/import). Tie: the model is evaluated inside Coq on what the real code returned for the same inputs.", "DESIGN §6 C19, §10", "proof", "Coq proof over tables generated from source (translator) for hand-written codecs + round-trip monitor of every registered type for generated codecs", NOTE_STD + " Generated protobuf code and jsonpb for non-enum kinds are trusted, exercised by the monitor only."),
 }
 
 def main():
@@ -17,7 +25,7 @@ def main():
     for p in allp:
         pid = p["id"]
         if os.path.exists(os.path.join(V, "coq/theories/Props/%s.v" % pid)) and pid in TEXT:
-            text, ref = TEXT[pid]
+            text, ref, cat, tech, note = TEXT[pid]
             checks.append({
                 "property_id": pid,
                 "quick_cmd": "./check %s --tier quick" % pid,
@@ -25,9 +33,9 @@ def main():
                 "evidence_file": "/verif/evidence/%s.json" % pid,
                 "replay_cmd_template": "./check %s --replay {path}" % pid,
                 "engine": "coq-model+correspondence",
-                "level_claimed": {"category": "proof", "text": text, "design_ref": ref},
-                "level_note": "Trusted: Coq 8.16.1 kernel; no axioms (Print Assumptions recorded in evidence); extraction with ExtrOcamlBasic; the Go harness, OCaml driver and Python comparer/monitors; SDK behaviour (bank, params, stores, math) modelled not verified — see DESIGN §8.",
-                "technique": "Coq proof (invariant by induction over all operations) + model/implementation correspondence on real keepers",
+                "level_claimed": {"category": cat, "text": text, "design_ref": ref},
+                "level_note": note,
+                "technique": tech,
             })
         else:
             na.append({"property_id": pid, "reason": "not claimed in this commit: its theorems/correspondence are still under construction (see DESIGN §6 for the plan)"})
